@@ -17,7 +17,7 @@ from harness.common import ASSUME, FAIL, PASS, check, tape_harness  # noqa: F401
 from harness import oracles as O
 from harness.frames import FakeFrame
 from harness.stubeval import StubError, parse_stub
-from harness.values import Grammar, build_value, show
+from harness.values import G_NESTED, G_NESTED2, G_NESTEDX, Grammar, build_value, show
 from vfix import funcs as F
 
 import monkeytype.typing as MT
@@ -160,7 +160,9 @@ RES_QUICK = Grammar(top_atoms=("int", "None"), elem_atoms=("int",), containers=(
 
 
 def decode_case(t, g, n_calls, full_matrix=False):
-    if full_matrix:
+    if full_matrix == "single":
+        kind, rw, flag = CONFIGS[0]
+    elif full_matrix:
         kind = KINDS[t.take(len(KINDS))]
         rw = REWRITERS[t.take(len(REWRITERS))]
         flag = FLAGS[t.take(len(FLAGS))]
@@ -168,8 +170,8 @@ def decode_case(t, g, n_calls, full_matrix=False):
         kind, rw, flag = CONFIGS[t.take(len(CONFIGS))]
     calls = []
     for i in range(n_calls):
-        arg = build_value(t, g)
-        res = build_value(t, g if full_matrix else RES_QUICK) if i == 0 or full_matrix else None
+        arg = build_value(t, g.for_index(i) if hasattr(g, "for_index") else g)
+        res = build_value(t, g if full_matrix is True else RES_QUICK) if (i == 0 or full_matrix is True) and full_matrix != "single" else None
         calls.append((arg, res))
     return kind, rw, flag, calls
 
@@ -260,11 +262,33 @@ def c06_body(t, k, g=G_PIPE, n_calls=2, full=False):
             for anno in list(fi.annotations.values()) + ([fi.returns] if fi.has_return else []):
                 for _p, node in O.walk(anno):
                     if O.is_anon_td(node):
-                        vals = [v for a, r in calls for v in (a, r)]
-                        dicts = [v for v in vals if type(v) is dict]
-                        if not dicts or any(len(d) == 0 or not all(isinstance(x, str) for x in d) for d in dicts if O.conforms(d, node)):
+                        dicts = _nested_dicts([v for a, r in calls for v in (a, r)])
+                        good = [d for d in dicts if len(d) > 0 and all(isinstance(x, str) for x in d) and O.conforms(d, node)]
+                        bad = [d for d in dicts if (len(d) == 0 or not all(isinstance(x, str) for x in d)) and O.conforms(d, node)]
+                        if not good or bad:
                             return fail(f"TypedDict annotation {O.show_type(node)} although the observed dicts were {[show(d) for d in dicts]}")
     return check(True)
+
+
+def _nested_dicts(values):
+    """Every exact-dict instance observed anywhere inside the values (containers are descended)."""
+    out = []
+
+    def rec(v):
+        if type(v) is dict:
+            out.append(v)
+            for x in v.values():
+                rec(x)
+        elif type(v) in (list, tuple, set):
+            for x in v:
+                rec(x)
+        elif hasattr(v, "default_factory") and isinstance(v, dict):
+            for x in v.values():
+                rec(x)
+
+    for v in values:
+        rec(v)
+    return out
 
 
 def _oversize(d, k):
@@ -289,12 +313,15 @@ G_DICT = Grammar(top_atoms=("int", "None"), elem_atoms=("int", "str"), container
 _CFG = {
     "c01_quick": (c01_body, G_PIPE, 2, False), "c01_medium": (c01_body, G_PIPE1, 2, False), "c01_thorough": (c01_body, G_PIPE2, 2, False),
     "c01_three": (c01_body, G_PIPE, 3, False), "c01_matrix": (c01_body, G_PIPE, 2, True),
+    "c01_nested2": (c01_body, G_NESTED2, 2, "single"), "c01_nested": (c01_body, G_NESTED, 2, "single"),
+    "c06_nested": (c06_body, G_NESTED, 2, "single"), "c01_nestedx": (c01_body, G_NESTEDX, 2, "single"), "c06_nestedx": (c06_body, G_NESTEDX, 2, "single"),
     "c06_quick": (c06_body, G_PIPE, 2, False), "c06_dicts": (c06_body, G_DICT, 2, False), "c06_thorough": (c06_body, G_PIPE2, 2, False),
 }
 for _n, (_b, _g, _calls, _full) in _CFG.items():
     def _mk(b=_b, g=_g, c=_calls, f=_full):
         return lambda t, k: b(t, k, g, c, f)
-    tape_harness(_n, [("t", 4 + _calls * 2 * (2 + 2 * max(_g.max_size, _g.dict_max)))], {"k": "int"}, _mk(), globals())
+    _tl = _g.tape_len() if hasattr(_g, "tape_len") else (2 + 2 * max(_g.max_size, _g.dict_max))
+    tape_harness(_n, [("t", 4 + _calls * 2 * _tl)], {"k": "int"}, _mk(), globals())
 
 
 def shards(name, prefix=5):
